@@ -219,11 +219,15 @@ IsRx(rx) == \A s \in SubstSet : rx.reac[s] \in Nat /\ rx.prod[s] \in Nat
 (*          checks switched off, then asked check_consistent_units(): accepted = the answer), "nochecks"  *)
 (*          (made with checks switched off: always constructed, whatever the dimension)                   *)
 KForms == {"quantity", "uncertain"}
-Hows == {"init", "method", "nochecks"}
+\*          "dontcheck" (dont_check={'consistent_units'}: always constructed), "inact" (the constructor, with an
+\*          additional INACTIVE reactant - it does not count for the order), "zero" (the constructor, constant of
+\*          magnitude 0: the dimension decides, not the number)
+Hows == {"init", "method", "nochecks", "dontcheck", "inact", "zero"}
+AcceptMag(how) == IF how = "zero" THEN <<0, 1>> ELSE <<3, 2>>
 E_RateAccept(rx, kux) == [accept |-> AcceptsRate(Order(rx), UnitOf(kux)), order |-> Order(rx)]
 RateAcceptV(rx, kux, kform, how) ==
     /\ kstage = "start" /\ IsRx(rx) /\ IsUExpr(kux) /\ kform \in KForms /\ how \in Hows
-    /\ KLog([op |-> "rate_accept", rx |-> rx, kux |-> kux, mag |-> <<3, 2>>, kform |-> kform, how |-> how], E_RateAccept(rx, kux))
+    /\ KLog([op |-> "rate_accept", rx |-> rx, kux |-> kux, mag |-> AcceptMag(how), kform |-> kform, how |-> how], E_RateAccept(rx, kux))
     /\ kstage' = "done" /\ UNCHANGED <<sys, cond, conf, vars>>
 RateAccept(rx, kux) == RateAcceptV(rx, kux, "quantity", "init")
 
@@ -231,7 +235,7 @@ RateAccept(rx, kux) == RateAcceptV(rx, kux, "quantity", "init")
 E_KAccept(rx, kux) == [dnu |-> DNu(rx), must_raise |-> ~KDimOK(DNu(rx), UnitOf(kux))]
 KAcceptV(rx, kux, kform, how) ==
     /\ kstage = "start" /\ IsRx(rx) /\ IsUExpr(kux) /\ kform \in KForms /\ how \in Hows
-    /\ KLog([op |-> "k_accept", rx |-> rx, kux |-> kux, mag |-> <<3, 2>>, kform |-> kform, how |-> how], E_KAccept(rx, kux))
+    /\ KLog([op |-> "k_accept", rx |-> rx, kux |-> kux, mag |-> AcceptMag(how), kform |-> kform, how |-> how], E_KAccept(rx, kux))
     /\ kstage' = "done" /\ UNCHANGED <<sys, cond, conf, vars>>
 KAccept(rx, kux) == KAcceptV(rx, kux, "quantity", "init")
 
@@ -274,6 +278,12 @@ ScanConc(i) == [s \in SubstSet |-> IF s = ScanSub THEN Qty(NMul(NFromQ(ScanMults
 TermsAt(conc, s) ==
     LET js == SelectSeq([j \in 1..Len(sys) |-> j], LAMBDA j : Net(sys[j].rx, s) # 0)
     IN  [i \in 1..Len(js) |-> [c |-> Net(sys[js[i]].rx, s), r |-> RateSI(sys[js[i]], conc), x |-> ExpoOf(sys[js[i]]), x2 |-> Expo2Of(sys[js[i]])]]
+ReK(j) == Qty(NMul(NFromQ(<<2, 1>>), sys[j].k.mag), sys[j].k.ux)
+ReRec(j) == [rx |-> sys[j].rx, k |-> ReK(j), law |-> LawOf(sys[j]), ea |-> IF "ea" \in DOMAIN sys[j] THEN sys[j].ea ELSE TempQ]
+TermsRe(s) ==
+    LET js == SelectSeq([j \in 1..Len(sys) |-> j], LAMBDA j : Net(sys[j].rx, s) # 0)
+    IN  [i \in 1..Len(js) |-> [c |-> Net(sys[js[i]].rx, s), r |-> RateSI(ReRec(js[i]), cond.conc),
+                                x |-> ExpoOf(ReRec(js[i])), x2 |-> Expo2Of(ReRec(js[i]))]]
 (* the rates obtained in a registry, read back in SI, and the units reported for the parameters *)
 E_PhysicalRate(reg) ==
     [ rates |-> [s \in SubstSet |-> Terms(s)],
@@ -295,6 +305,9 @@ E_PhysicalRate(reg) ==
                   [ cin |-> [s \in SubstSet |-> CIn(reg, ScanConc(i)[s])],
                     rates |-> [s \in SubstSet |-> TermsAt(ScanConc(i), s)] ]],
       scansub |-> ScanSub, scanmults |-> ScanMults,
+      \* object history: the constants of the SAME reaction objects are reassigned (twice their value, as written in
+      \* ReK) and the ODE system is built again from the same reaction system: the rates are those of the new constants
+      reassign |-> [s \in SubstSet |-> TermsRe(s)],
       cin |-> [s \in SubstSet |-> CIn(reg, cond.conc[s])],
       p_units |-> [j \in 1..Len(sys) |-> RegUnit(reg, KParamDim(sys[j]))],
       \* evaluating, validating or solving is an observation: the constants the caller holds are still
@@ -320,7 +333,8 @@ PhysicalRate(reg, mode) ==
     /\ kstage = "conditions" /\ IsReg(reg) /\ mode \in AllModes /\ Buildable(mode)
     /\ conf' = [name |-> conf.name, reg |-> reg, mode |-> mode]
     /\ KLog([op |-> "rates", reg |-> reg, mode |-> mode, laws |-> [j \in 1..Len(sys) |-> LawOf(sys[j])],
-              temp |-> [mag |-> TempQ.mag, ux |-> TempQ.ux], env |-> EnvOut], E_PhysicalRate(reg))
+              temp |-> [mag |-> TempQ.mag, ux |-> TempQ.ux], env |-> EnvOut,
+              kre |-> [j \in 1..Len(sys) |-> QOut2(ReK(j))]], E_PhysicalRate(reg))
     /\ kstage' = "rates" /\ UNCHANGED <<sys, cond, vars>>
 
 (* output rescaling and a two-point integration with quantities in and out *)
@@ -430,10 +444,11 @@ CSIFor(plan) == [s \in SubstSet |-> IF (plan >= 5 /\ s = "B") \/ (plan >= 6 /\ s
 CuxFor(plan) == [s \in SubstSet |-> ConcUx[Cyc(ConcKeys, plan + Idx(Subst, s))]]
 
 GenRateAccept == \E tpl \in DOMAIN RxLib, tn \in KTimes, cn \in KConcs, w \in Wrongs, kf \in KForms, how \in Hows :
-                     "accept" \in Modes /\ (how # "init" => tn = "s" /\ kf = "quantity") /\ (kf = "uncertain" => tn = "s")
+                     "accept" \in Modes /\ (how \notin {"init", "zero"} => tn = "s" /\ kf = "quantity") /\ (kf = "uncertain" => tn = "s")
+                     /\ (how = "zero" => tn = "min")
                      /\ RateAcceptV(RxLib[tpl], WrongUx(w, Order(RxLib[tpl]), cn, tn), kf, how)
 GenKAccept == \E tpl \in EqTemplates, cn \in KConcs, w \in EqWrongs, kf \in KForms, how \in Hows :
-                     "accept" \in Modes /\ (how # "init" => kf = "quantity")
+                     "accept" \in Modes /\ (how \notin {"init", "zero"} => kf = "quantity")
                      /\ KAcceptV(RxLib[tpl], WrongKUx(w, DNu(RxLib[tpl]), cn), kf, how)
 KSIFor(law, j) == IF law = "radiolytic" THEN GSI ELSE IF law = "eyringhs" THEN DHSI[j] ELSE KSI[j]
 GenSetSystem == \E name \in Systems, tn \in KTimes, cn \in KConcs, w \in (Wrongs \cap {"none", "conc-", "time2"}), plan \in Laws :
